@@ -4,12 +4,12 @@
 package main
 
 import (
-	"runtime/pprof"
 	"encoding/json"
 	"flag"
 	"fmt"
 	"os"
 	"path/filepath"
+	"runtime/pprof"
 	"sort"
 	"strings"
 	"time"
